@@ -556,7 +556,7 @@ func (r *Report) finish() int {
 	sort.Strings(kf)
 	cov["known_findings_hit"] = kf
 	evd := map[string]any{"property_id": r.Prop, "tier": r.Tier, "seed": r.Seed, "level": level, "coverage": cov,
-		"assumptions": assumptions, "wall_s": round3(wall), "violations": violations}
+		"assumptions": assumptions, "wall_s": round3(time.Since(r.T0).Seconds()), "violations": violations}
 	os.MkdirAll(filepath.Join(r.Verif, "evidence"), 0755)
 	writeJSON(filepath.Join(r.Verif, "evidence", r.Prop+".json"), evd)
 	for _, l := range lines {
